@@ -1,7 +1,7 @@
 import SqlObjVerif.Model.Conc
 import SqlObjVerif.Model.DrvUtil
 /-! Driver for C09.  Request (one line, space separated `key=value`):
-    `c=<0|1> freq=<n> frac=<n> cc=<n> off=<n> strong=<i:o,…|-> weak=<i:o,…|-> db=<i,…|-> fresh=<n> pins=<o,…|->
+    `dc=<0|1> c=<0|1> freq=<n> frac=<n> cc=<n> off=<n> strong=<i:o,…|-> weak=<i:o,…|-> db=<i,…|-> fresh=<n> pins=<o,…|->
      progs=<ops/ops/…> sched=<t,t,…|->`   with ops = `.`-joined `g<i>` `c<i>` `x<i>` `A` `C` (or `-`).
     The schedule is run, then drained (lowest enabled thread first).
     Answer: `outs=<per thread, / separated> lock=… strong=… weak=… unfinished=… stale=… cc=… off=… tr=<t:kind,…>`. -/
@@ -35,18 +35,20 @@ def kv (ws : List String) (k : String) : Option String :=
     | [a, b] => if a == k then some b else none
     | _ => none
 
-def kindOf : Pc → String
+def kindOf (dc : Bool) : Pc → String
   | .idle => "idle"
   | .csGet _ | .csSet _ => "caches"
   | .ccTest _ | .ccRead _ => "cc.read"
   | .ccWrite _ _ | .ccReset _ => "cc.write"
   | .probe _ | .relook _ | .cuStrongGet _ _ _ => "strong.get"
-  | .acq _ | .exAcq _ | .eaAcq | .cuAcq _ => "acquire"
+  | .acq _ | .nAcq _ | .exAcq _ | .eaAcq | .cuAcq _ => "acquire"
   | .relRel _ _ | .relSet _ _ | .finRel _ _ | .finRelNF _ | .exRel | .exRelErr | .eaRel | .eaRelErr
   | .cuRel _ | .cuRelErr => "release"
-  | .weakGet _ | .cuWeakChk _ _ => "weak.get"
+  | .weakGet _ | .cuWeakChk _ _ | .nProbe _ | .nRelook _ => "weak.get"
   | .weakDel _ _ | .weakDelDead _ _ | .exDelWeak _ | .cuWeakPop _ _ _ _ => "weak.del"
-  | .strongSet _ _ | .put _ _ | .crSet _ _ => "strong.set"
+  | .strongSet _ _ => "strong.set"
+  | .put _ _ | .crSet _ _ => if dc then "strong.set" else "weak.set"
+  | .eaEntry => "ea.entry"
   | .select _ | .crSelect _ _ => "db.select"
   | .insert _ => "db.insert"
   | .exInStrong _ => "strong.in"
@@ -79,7 +81,7 @@ def showWeak (s : State) : String :=
 def runTr (s : State) (tr : List String) : List Tid → State × List String
   | [] => (s, tr)
   | t :: ts => match step s t with
-    | some s' => runTr s' (s!"{t}:{kindOf (s.th t).pc}" :: tr) ts
+    | some s' => runTr s' (s!"{t}:{kindOf s.dc (s.th t).pc}" :: tr) ts
     | none => runTr s tr ts
 
 def drainTr (n : Nat) : Nat → State → List String → State × List String
@@ -87,21 +89,21 @@ def drainTr (n : Nat) : Nat → State → List String → State × List String
   | fuel + 1, s, tr =>
     match (List.range n).find? (fun t => (step s t).isSome) with
     | some t => match step s t with
-      | some s' => drainTr n fuel s' (s!"{t}:{kindOf (s.th t).pc}" :: tr)
+      | some s' => drainTr n fuel s' (s!"{t}:{kindOf s.dc (s.th t).pc}" :: tr)
       | none => (s, tr)
     | none => (s, tr)
 
 def handle (line : String) : String :=
   let ws := words line
   let g (k : String) : Option String := kv ws k
-  match (g "c"), (g "freq").bind String.toNat?, (g "frac").bind String.toNat?, (g "cc").bind String.toNat?,
+  match (g "dc"), (g "c"), (g "freq").bind String.toNat?, (g "frac").bind String.toNat?, (g "cc").bind String.toNat?,
         (g "off").bind String.toNat?, (g "strong").bind amap?, (g "weak").bind amap?, (g "db").bind natList?,
         (g "fresh").bind String.toNat?, (g "pins").bind natList?, (g "progs").bind (fun s => (s.splitOn "/").mapM prog?),
         (g "sched").bind natList? with
-  | some c, some freq, some frac, some cc, some off, some strong, some weak, some db, some fresh, some pins, some progs,
+  | some dc, some c, some freq, some frac, some cc, some off, some strong, some weak, some db, some fresh, some pins, some progs,
     some sched =>
     let n := progs.length
-    let s0 := mkInit (c == "1") strong weak db fresh freq frac cc off pins (fun t => progs.getD t [])
+    let s0 := mkInit (dc == "1") (c == "1") strong weak db fresh freq frac cc off pins (fun t => progs.getD t [])
     let (s1, tr1) := runTr s0 [] (sched.filter (· < n))
     let (s2, tr2) := drainTr n 100000 s1 tr1
     let outs := joinOr "/" ((List.range n).map fun t => joinOr "," ((s2.th t).outs.map showOut))
@@ -109,6 +111,6 @@ def handle (line : String) : String :=
     let lock := match s2.lock with | none => "-" | some t => toString t
     s!"outs={outs} lock={lock} strong={showMap s2.strong} weak={showWeak s2} unfinished={unfinished} " ++
     s!"stale={joinOr "," (s2.stale.map toString)} cc={s2.cc} off={s2.off} tr={joinOr "," tr2.reverse}"
-  | _, _, _, _, _, _, _, _, _, _, _, _ => "bad-request"
+  | _, _, _, _, _, _, _, _, _, _, _, _, _ => "bad-request"
 
 def main : IO Unit := loopPure handle
